@@ -949,3 +949,121 @@ Module IR.
 
   Definition busy (s : state) (t : nat) : bool := match t_pc (ts s t) with Idle => false | _ => true end.
 End IR.
+
+(* ============================================================== spinlock.go, the contended path step by step
+   Lock() = for !TryLock() { Gosched() }: every attempt and every yield is a step, so any number of
+   goroutines can be spinning when the holder unlocks.  [cas = true] is the code: TryLock is ONE
+   atomic compare-and-swap.  [cas = false] is the tempting wrong variant "load, see 0, then store 1"
+   (two steps): Props refutes mutual exclusion for it with a computed schedule. *)
+Module SPINL.
+  (* script op: o_code 0 = Lock, 1 = TryLock, otherwise Unlock *)
+  Inductive pc :=
+  | Idle
+  | LTry                 (* Lock: the next TryLock attempt                       l.15 *)
+  | LYield               (* runtime.Gosched()                                   l.17 *)
+  | TTry                 (* TryLock: CompareAndSwapUint32(&l.lock, 0, 1)        l.23 *)
+  | Obs (lk seen : bool) (* cas = false only: the value was loaded (seen), the store / return is still to come;
+                            lk = the attempt belongs to Lock *)
+  | UGo.                 (* Unlock: SwapUint32(&l.lock, 0)                      l.28 *)
+  Record tstate := mkt { t_pc : pc; t_todo : list op; t_res : list (nat * nat) }.
+  Record state := mk { lockw : bool; cs : list nat (* ghost: acquired and not released *);
+                       misuse : bool (* ghost: Unlock by a non-holder *); ts : nat -> tstate; trace : list ev }.
+  Definition init (scripts : nat -> list op) : state := mk false [] false (fun t => mkt Idle (scripts t) []) [].
+
+  Definition step (cas : bool) (l : lbl) (s : state) : option state :=
+    match l with
+    | Thr t =>
+        let x := ts s t in
+        let setp (p : pc) := Some (mk (lockw s) (cs s) (misuse s) (upd (ts s) t (mkt p (t_todo x) (t_res x))) (trace s)) in
+        let acquire (code : nat) :=
+          Some (mk true (t :: cs s) (misuse s) (upd (ts s) t (mkt Idle (t_todo x) ((1, 0) :: t_res x)))
+                   (mkev t KRet code 1 0 0 :: trace s)) in
+        let fail_try :=
+          Some (mk (lockw s) (cs s) (misuse s) (upd (ts s) t (mkt Idle (t_todo x) ((0, 0) :: t_res x)))
+                   (mkev t KRet 1 0 0 0 :: trace s)) in
+        match t_pc x with
+        | Idle =>
+            match t_todo x with
+            | [] => None
+            | o :: rest =>
+                Some (mk (lockw s) (cs s) (misuse s)
+                         (upd (ts s) t (mkt (match o_code o with 0 => LTry | 1 => TTry | _ => UGo end) rest (t_res x)))
+                         (mkev t KInv (o_code o) 0 0 0 :: trace s))
+            end
+        | LTry => if cas then (if lockw s then setp LYield else acquire 0) else setp (Obs true (lockw s))
+        | LYield => setp LTry
+        | TTry => if cas then (if lockw s then fail_try else acquire 1) else setp (Obs false (lockw s))
+        | Obs lk seen =>
+            if seen then (if lk then setp LYield else fail_try)
+            else acquire (if lk then 0 else 1)       (* the store of 1, whatever the lock word is by now *)
+        | UGo =>
+            Some (mk false (filter (fun u => negb (Nat.eqb u t)) (cs s))
+                     (misuse s || negb (existsb (Nat.eqb t) (cs s)))
+                     (upd (ts s) t (mkt Idle (t_todo x) ((0, 0) :: t_res x)))
+                     (mkev t KRet 2 0 0 0 :: trace s))
+        end
+    | _ => None
+    end.
+End SPINL.
+
+(* ============================================================== donechan.go, Close step by step
+   Close() = dc.once.Do(func() { close(dc.done) }).  sync.Once.Do: fast path: if done flag set,
+   return; else lock its mutex, if the flag is still clear run f and then set the flag, unlock.
+   So a caller that loses the race WAITS (on the mutex) until the winner has closed the channel.
+   [waits = false] is the tempting wrong variant "CAS a flag, the winner closes" in which a loser
+   returns at once: Props refutes "Done() is closed once any Close has returned" for it. *)
+Module DONEL.
+  (* script op: o_code 0 = Close, otherwise a poll of <-dc.Done() *)
+  Inductive pc :=
+  | Idle
+  | OFast                (* once.Do: if o.done.Load() == 0 -> slow path          *)
+  | OLock                (* o.m.Lock()                                          *)
+  | OBody                (* if o.done.Load() == 0 { f() = close(dc.done); o.done.Store(1) } *)
+  | OUnlock              (* o.m.Unlock(); Close returns                         *)
+  | WCas                 (* waits = false: CompareAndSwap(&flag, 0, 1)          *)
+  | WClose               (* waits = false, winner: close(dc.done)               *)
+  | PGo.                 (* poll                                                *)
+  Record tstate := mkt { t_pc : pc; t_todo : list op; t_res : list (nat * nat) }.
+  Record state := mk { closed : bool; ncloses : nat; flag : bool; mu : option nat;
+                       returned : bool (* ghost: some Close call has returned *);
+                       early : bool (* ghost: a Close returned while the channel was still open *);
+                       ts : nat -> tstate; trace : list ev }.
+  Definition init (scripts : nat -> list op) : state := mk false 0 false None false false (fun t => mkt Idle (scripts t) []) [].
+
+  Definition step (waits : bool) (l : lbl) (s : state) : option state :=
+    match l with
+    | Thr t =>
+        let x := ts s t in
+        let setp (m : option nat) (p : pc) :=
+          Some (mk (closed s) (ncloses s) (flag s) m (returned s) (early s) (upd (ts s) t (mkt p (t_todo x) (t_res x))) (trace s)) in
+        let ret (m : option nat) :=   (* Close returns *)
+          Some (mk (closed s) (ncloses s) (flag s) m true (early s || negb (closed s))
+                   (upd (ts s) t (mkt Idle (t_todo x) ((0, 0) :: t_res x))) (mkev t KRet 0 0 0 0 :: trace s)) in
+        match t_pc x with
+        | Idle =>
+            match t_todo x with
+            | [] => None
+            | o :: rest =>
+                Some (mk (closed s) (ncloses s) (flag s) (mu s) (returned s) (early s)
+                         (upd (ts s) t (mkt (match o_code o with 0 => if waits then OFast else WCas | _ => PGo end) rest (t_res x)))
+                         (mkev t KInv (o_code o) 0 0 0 :: trace s))
+            end
+        | OFast => if flag s then ret (mu s) else setp (mu s) OLock
+        | OLock => match mu s with None => setp (Some t) OBody | Some _ => None end
+        | OBody =>
+            if flag s then setp (mu s) OUnlock
+            else Some (mk true (if closed s then ncloses s else S (ncloses s)) true (mu s) (returned s) (early s)
+                          (upd (ts s) t (mkt OUnlock (t_todo x) (t_res x))) (trace s))
+        | OUnlock => ret None
+        | WCas => if flag s then ret (mu s)
+                  else Some (mk (closed s) (ncloses s) true (mu s) (returned s) (early s)
+                                (upd (ts s) t (mkt WClose (t_todo x) (t_res x))) (trace s))
+        | WClose => Some (mk true (S (ncloses s)) (flag s) (mu s) (returned s) (early s)
+                             (upd (ts s) t (mkt OUnlock (t_todo x) (t_res x))) (trace s))
+        | PGo => Some (mk (closed s) (ncloses s) (flag s) (mu s) (returned s) (early s)
+                          (upd (ts s) t (mkt Idle (t_todo x) ((if closed s then 1 else 0, 0) :: t_res x)))
+                          (mkev t KRet 1 (if closed s then 1 else 0) 0 0 :: trace s))
+        end
+    | _ => None
+    end.
+End DONEL.
